@@ -1,6 +1,8 @@
 package node
 
 import (
+	"sort"
+
 	"github.com/lindb/lindb/tsdb"
 	"github.com/lindb/lindb/tsdb/tblstore/metricsdata"
 )
@@ -135,6 +137,25 @@ func (m *Model) TagKeys(ns, metricName string) []string {
 	var rs []string
 	for k := range set {
 		rs = append(rs, k)
+	}
+	return rs
+}
+
+// SeriesTags returns the tag sets of the series of a metric the model has seen (sorted by series key).
+func (m *Model) SeriesTags(ns, metricName string) []map[string]string {
+	if ns == "" {
+		ns = DefaultNamespace
+	}
+	var keys []string
+	for k, s := range m.series {
+		if s.ns == ns && s.metric == metricName {
+			keys = append(keys, k)
+		}
+	}
+	sort.Strings(keys)
+	var rs []map[string]string
+	for _, k := range keys {
+		rs = append(rs, m.series[k].tags)
 	}
 	return rs
 }
